@@ -1398,6 +1398,9 @@ var ruleParseResults = &core.Rule{ID: "R08.3", Min: 4,
 					if m.fam[g] && wholeSettlement(m, g, ibF) == st {
 						okInc = true
 					}
+					if symbolicSettlements(m, g, ibF)[st] {
+						okInc = true
+					}
 					s.Check(okInc, key, c.Pos(st.Pos()), "+1 per inspected byte (or reset to 0)", "the inspected-bytes counter is changed other than by +1 per byte looked at")
 				}
 			}
@@ -1775,6 +1778,110 @@ func wholeSettlement(m *jsonModel, f *ssa.Function, ibF int) *ssa.Store {
 		}
 	}
 	return st
+}
+
+// symbolicSettlements accepts two further ways of moving the inspected-byte
+// counter by a run of bytes at once (a scanner that skips to the next
+// interesting byte with an index search):
+//
+//	n += X; p.ib += Y   in one block, where X and Y are the same sum of the same values (e.g. i + 1 for the
+//	                    same search result i): consumed and inspected advance together;
+//	p.ib += len(b[n:]); return 0   everything that was left has been looked at and the scanner fails.
+func symbolicSettlements(m *jsonModel, f *ssa.Function, ibF int) map[*ssa.Store]bool {
+	out := map[*ssa.Store]bool{}
+	chain := countChain(f)
+	bp := byteParam(f)
+	// linear form of an int value: constants and opaque values summed
+	type form struct {
+		c int64
+		t map[ssa.Value]int64
+	}
+	var lin func(v ssa.Value, d int) form
+	lin = func(v ssa.Value, d int) form {
+		if k, ok := core.ConstInt(v); ok {
+			return form{c: k, t: map[ssa.Value]int64{}}
+		}
+		if bo, ok := v.(*ssa.BinOp); ok && bo.Op == token.ADD && d < 6 {
+			a, b := lin(bo.X, d+1), lin(bo.Y, d+1)
+			for k, n := range b.t {
+				a.t[k] += n
+			}
+			a.c += b.c
+			return a
+		}
+		return form{t: map[ssa.Value]int64{v: 1}}
+	}
+	same := func(a, b form) bool {
+		if a.c != b.c || len(a.t) != len(b.t) || len(a.t) == 0 {
+			return false
+		}
+		for k, n := range a.t {
+			if b.t[k] != n {
+				return false
+			}
+		}
+		return true
+	}
+	for _, b := range f.Blocks {
+		var stores []*ssa.Store
+		var incs []ssa.Value // the amounts added to a chain base in this block
+		for _, in := range b.Instrs {
+			switch x := in.(type) {
+			case *ssa.Store:
+				fa, ok := x.Addr.(*ssa.FieldAddr)
+				if !ok || fa.Field != ibF || !m.isState(fa.X.Type()) {
+					continue
+				}
+				bo, ok := x.Val.(*ssa.BinOp)
+				if !ok || bo.Op != token.ADD {
+					continue
+				}
+				if b2, f2, isLd := core.LoadOfField(bo.X); !isLd || f2 != ibF || b2 != fa.X {
+					continue
+				}
+				if _, isC := core.ConstInt(bo.Y); isC {
+					continue
+				}
+				stores = append(stores, x)
+			case *ssa.BinOp:
+				if x.Op != token.ADD || !chain[x] {
+					continue
+				}
+				// base + amount: the base is loop-carried or a parameter, the amount is not a constant
+				for _, pr := range [][2]ssa.Value{{x.X, x.Y}, {x.Y, x.X}} {
+					_, isPhi := pr[0].(*ssa.Phi)
+					_, isPar := pr[0].(*ssa.Parameter)
+					if !(isPhi || isPar) {
+						continue
+					}
+					if _, isC := core.ConstInt(pr[1]); !isC {
+						incs = append(incs, pr[1])
+					}
+				}
+			}
+		}
+		used := map[int]bool{}
+		for _, st := range stores {
+			y := st.Val.(*ssa.BinOp).Y
+			// failure with everything inspected
+			if r := retOf(b); r != nil && core.IsConstInt(r.Results[0], 0) {
+				if ln, ok := y.(*ssa.Call); ok && core.IsBuiltin(&ln.Call, "len") {
+					if sl, ok := ln.Call.Args[0].(*ssa.Slice); ok && sl.X == ssa.Value(bp) && sl.High == nil && sl.Low != nil && chain[sl.Low] {
+						out[st] = true
+						continue
+					}
+				}
+			}
+			for i, x := range incs {
+				if !used[i] && same(lin(x, 0), lin(y, 0)) {
+					used[i] = true
+					out[st] = true
+					break
+				}
+			}
+		}
+	}
+	return out
 }
 
 func ibIncrements(m *jsonModel, b *ssa.BasicBlock, ibF int) int {
